@@ -127,7 +127,19 @@ def make_points(case, terms, n=24):
     for i in range(n):
         p = {t: ch.choice(PVALS) for t in sorted(terms)}
         okp = True
-        for eq in reversed(eqs):
+        if case.get("shared_elimination") and len(eqs) == 2:
+            # a := c1 - rest1, then the second equality is solved for its own fluent: t2 := (c2 - a) / k
+            try:
+                a = term_str(eqs[0][1][1])
+                p[a] = poly.ev(eqs[0][2], p) - poly.ev(eqs[0][1][2], p)
+                t2, k = eqs[1][1][2][1], Fraction(eqs[1][1][2][2])
+                p[term_str(t2)] = (poly.ev(eqs[1][2], p) - p[a]) / k
+            except (ZeroDivisionError, KeyError, TypeError, ValueError):
+                okp = False
+            eqs_iter = []
+        else:
+            eqs_iter = list(reversed(eqs))
+        for eq in eqs_iter:
             # (= (+ a rest) c): a := c - rest (later equalities first: their fluent may occur in earlier ones)
             a, rest, c = eq[1][1], eq[1][2], eq[2]
             try:
@@ -379,7 +391,8 @@ def check_case(case):
         # output must not depend on what was simplified before
         plain = {k: v for k, v in case.items() if k != "history"}
         validate(plain)
-        for earlier in (plain, twin_case(plain)):
+        coarse = dict(plain, digits=0) if plain.get("digits") != 0 else dict(plain, digits=1)
+        for earlier in (coarse, plain, twin_case(plain)):      # the same condition printed more coarsely first
             try:
                 check_case(earlier)
             except Exception:  # noqa: the earlier calls are judged when they are generated as cases of their own
@@ -584,6 +597,20 @@ def check_case(case):
                 continue
             a, b = all(vin), all(vout)
             both.add(a)
+            if a and b and eqs and tol < Fraction(1, 8):
+                # the same point with the eliminated fluent moved by 1: every input equality over it (coefficient 1)
+                # is now off by 1, far beyond any rounding, so the output must reject the point as well
+                av = term_str(eqs[0][1][1])
+                p2 = {**p, av: p[av] + 1}
+                try:
+                    vin2 = all(_truth(c, p2, Fraction(0)) for c in eqs + conds)
+                    vout2 = all(_truth(o, p2, tol if _is_eq(o) else Fraction(0)) for o in outs)
+                except (ZeroDivisionError, KeyError):
+                    vin2 = vout2 = None
+                if vin2 is False and vout2 is True:
+                    res.bad("C13/print/conjunction-not-equivalent", {**info, "output": out, "point": {x: str(y) for x, y in p2.items()},
+                                                                   "input_holds": False, "output_holds": True, "note": "eliminated fluent moved by 1"})
+                    return res
             if a != b:
                 res.bad("C13/print/conjunction-not-equivalent", {**info, "output": out, "point": {x: str(y) for x, y in p.items()},
                                                                "input_holds": a, "output_holds": b})
@@ -725,8 +752,16 @@ def gen(ch, tier):
                 break
             rest = gen_poly(ch, others, 1, "dec" if cls in ("near", "tiny", "long") else cls, ch.int(1, 2))
             eqs.append(["=", ["+", list(a), rest], ch.choice(["0", "0", gen_coef(ch, "int")])])
+        if len(eqs) == 1 and entry == "print" and ch.flag(0.3):
+            # a second equality that eliminates the same fluent: (= (+ a rest1) c1), (= (+ a (* t2 k)) c2)
+            a0 = eqs[0][1][1]
+            free = [t for t in terms if term_str(t) != term_str(a0) and term_str(t) not in terms_in(eqs[0][1][2])]
+            if free:
+                t2 = list(ch.choice(free))
+                eqs.append(["=", ["+", list(a0), ["*", t2, ch.choice(["2", "-1", "3", "0.5"])]], gen_coef(ch, "int")])
+                case["shared_elimination"] = True
         case["equalities"] = eqs
-        if eqs and ch.flag(0.3):
+        if eqs and not case.get("shared_elimination") and ch.flag(0.3):
             # an inequality whose left side cancels completely under the first equality: what remains, 0 <op> rhs,
             # still restricts the fluents of the right side
             rest_terms = [t for t in terms if term_str(t) != term_str(eqs[0][1][1])]
